@@ -58,6 +58,14 @@ Theorem C19_call_step :
   forall x t args out y, outcome_ctx (resolved_call_execute x t args out) = Some y -> call_step x t y.
 Proof. exact resolved_call_execute_spec. Qed.
 
+(* 4. the history-level consequence claimed by the property text ("once every particle and call result has
+   been delivered no call or canon remains marked as sent but unexecuted": CallSpec.C19_full, every peer of a
+   quiescent clean history takes over no mark of another peer from the merged data) is REFUTED by the model,
+   with the same witness as on the real code (known finding forwarded-before-arguments-known): a call whose
+   arguments are not known yet is marked and forwarded at once, the sender keeps its mark when it learns them *)
+Theorem C19_full_refuted : ~ C19_full stream_instr finish_streams.
+Proof. exact C19_full_refuted_proof. Qed.
+
 (* 5. the decisive source lines (comparison that chooses handle_remote_call, the pushes, the dedup) *)
 Theorem C19_source_tie : C19_source_tie_stmt.
 Proof. exact C19_source_tie_proof. Qed.
@@ -137,4 +145,5 @@ Print Assumptions C19_next_peers_not_self_run2.
 Print Assumptions C19_marked_forwarded.
 Print Assumptions C19_canon.
 Print Assumptions C19_call_step.
+Print Assumptions C19_full_refuted.
 Print Assumptions C19_source_tie.
